@@ -53,6 +53,9 @@ type C11Case struct {
 	// "shadow-empty-value".
 	ExcludedEmpty int  `json:"excluded_empty,omitempty"`
 	AllowEmpty    bool `json:"allow_empty,omitempty"` // only set by the known-finding reproduction
+	// Pad: header_extra_padding_block (merged values are written with an 8-byte zero extension block, also
+	// into shadow DBIs): the extension is not part of the application's value
+	Pad bool `json:"pad,omitempty"`
 }
 
 var c11DBINames = []string{"alpha", "beta", "gamma"}
@@ -108,7 +111,8 @@ func kindFlags(kind string) uint64 {
 // shadowTS: when non-nil, entries whose model timestamp equals tsPending are
 // accepted with any timestamp in [lo,hi] (wall-clock drive), all the same, and
 // the model adopts the observed value.
-func compareMirror(env *lmdb.Env, m *model.Mirror, lastLSTxn uint64, bracket *[2]uint64) error {
+func compareMirror(env *lmdb.Env, m *model.Mirror, lastLSTxn uint64, bracket *[2]uint64, pad ...bool) error {
+	padOK := len(pad) > 0 && pad[0] // header_extra_padding_block: values written by a merge carry one zero extension block
 	dump, err := lm.DumpEnv(env)
 	if err != nil {
 		return err
@@ -176,7 +180,7 @@ func compareMirror(env *lmdb.Env, m *model.Mirror, lastLSTxn uint64, bracket *[2
 					return fmt.Errorf("shadow %q key %x: got (ts=%d del=%v val=%x), model (ts=%d del=%v val=%x)", sname, e.Key, h.TS, h.Flags&1 != 0, h.AppVal, wantTS, want.Del, want.Val)
 				}
 				// header well-formedness of every value LS wrote (C14 invariant)
-				if _, err := model.CheckLSWritten(e.Val, h.TxnID, false); err != nil {
+				if _, err := model.CheckLSWritten(e.Val, h.TxnID, padOK && h.NumExt == 1); err != nil {
 					return fmt.Errorf("shadow %q key %x: %v", sname, e.Key, err)
 				}
 				if want.Txn != 0 && h.TxnID != want.Txn {
@@ -198,7 +202,7 @@ const tsPending = ^uint64(0) - 12345
 func checkC11(c C11Case, o *vcore.Obs) error {
 	env := lm.New(32<<20, 16)
 	defer env.Close()
-	s, _ := newShadowSyncer(env.Env, "a", config.LMDB{SchemaTracksChanges: false})
+	s, _ := newShadowSyncer(env.Env, "a", config.LMDB{SchemaTracksChanges: false, HeaderExtraPaddingBlock: c.Pad})
 	ctx := context.Background()
 	m := model.NewMirror()
 	clock := uint64(1000) // drive a: logical clock, captures take even values
@@ -380,7 +384,7 @@ func checkC11(c C11Case, o *vcore.Obs) error {
 				lastSynced = retTxn
 			} else {
 				// the sync loop now uploads; mirror that so the next step starts from a synced state
-				if err := compareMirror(env.Env, m, lsTxn, bracket); err != nil {
+				if err := compareMirror(env.Env, m, lsTxn, bracket, c.Pad); err != nil {
 					return fmt.Errorf("%s (after load): %v", step, err)
 				}
 				bracket = nil
@@ -394,13 +398,14 @@ func checkC11(c C11Case, o *vcore.Obs) error {
 				remoteBetween = true
 			}
 		}
-		if err := compareMirror(env.Env, m, 0, bracket); err != nil {
+		if err := compareMirror(env.Env, m, 0, bracket, c.Pad); err != nil {
 			return fmt.Errorf("%s: %v", step, err)
 		}
 		_ = remoteTSPool
 	}
 	o.NonTrivial(nt && captures >= 2)
 	o.Class("drive-" + c.Drive)
+	o.ClassIf(c.Pad, "header-padding-option")
 	for _, k := range c.Kinds {
 		o.Class("kind-" + k)
 	}
@@ -444,6 +449,7 @@ func sortKVs(kind string, es []model.KV) {
 func genC11(t *rapid.T) C11Case {
 	var c C11Case
 	c.Drive = rapid.SampledFrom([]string{"a", "a", "a", "b"}).Draw(t, "drive")
+	c.Pad = rapid.IntRange(0, 4).Draw(t, "pad") == 0
 	nd := rapid.IntRange(1, 3).Draw(t, "ndbi")
 	for i := 0; i < nd; i++ {
 		c.Kinds = append(c.Kinds, rapid.SampledFrom([]string{"plain", "plain", "int4", "int8"}).Draw(t, "kind"))
